@@ -36,6 +36,15 @@
 (*   printed-ids (explicit IDs kept by the printer), printed-refs (every   *)
 (*   printed reference is the target's ID).                                *)
 (*                                                                         *)
+(* The `distinct` law is exercised per node kind: harness/props/c17/di.go  *)
+(* (distinctRows) writes the 28-kind module with the numbered definitions  *)
+(* of ONE kind distinct (K@distinct) / not distinct (K@uniqued), for every *)
+(* kind and for tuples, and with all kinds distinct; want.defs[x].distinct *)
+(* is read off the text, llvm-as decides which variants are valid.  The    *)
+(* law is judged on the parsed module (distinct) and on the module parsed  *)
+(* from the print (distinct-after-reprint).                                *)
+(* Histories parse -> edit -> print are specified in MetadataEdit.tla.     *)
+(*                                                                         *)
 (* md_iso_rec.ndjson -- isolation, one row per pair of texts (A, B) parsed  *)
 (* in one process: {"a","b", "shared_same":[types of node objects reachable *)
 (* from two separate parses of A], "shared_diff":[... from A and from B],  *)
